@@ -1104,6 +1104,169 @@ theorem serialisable (store : Nat → Nat) (reqs : List (List Item)) (hd : Disti
   rw [run_items, init_items] at this
   exact this
 
+/-! ## the verdicts are the log; a failed TryLock had a real conflict -/
+
+/-- control state and result of a thread fit together -/
+def pcres (th : Thread) : Prop :=
+  match th.pc with
+  | .locking => th.res = .running
+  | .checked true => th.res = .running
+  | .checked false => th.res = .stale
+  | .applied => th.res = .running
+  | .published => th.res = .admitted
+  | .unlocking => True
+  | .done => True
+
+/-- the log holds `(t, true)` exactly for the requests that were applied (admitted once published) and
+`(t, false)` exactly for the stale ones -/
+def LogInv (s : Sys) : Prop :=
+  ∀ (t : Nat) (th : Thread), s.threads[t]? = some th →
+    pcres th ∧ ((t, true) ∈ s.log ↔ (th.pc = .applied ∨ th.res = .admitted)) ∧ ((t, false) ∈ s.log ↔ th.res = .stale)
+
+theorem beginUnlock_self {s : Sys} {t : Nat} {th : Thread} (h : s.threads[t]? = some th) :
+    ∃ th', (beginUnlock s t th).threads[t]? = some th' ∧ (beginUnlock s t th).log = s.log ∧ th'.res = th.res ∧
+      (th'.pc = .unlocking ∨ th'.pc = .done) := by
+  unfold beginUnlock
+  split
+  · exact ⟨_, getElem?_set_self_of_some h, rfl, rfl, Or.inr rfl⟩
+  · exact ⟨_, getElem?_set_self_of_some h, rfl, rfl, Or.inl rfl⟩
+
+theorem loginv_unlock {s : Sys} {t : Nat} {th : Thread} (hl : LogInv s) (h : s.threads[t]? = some th)
+    (hpc : th.pc = .checked false ∨ th.pc = .published ∨ th.pc = .unlocking) (thu : Thread)
+    (hu : (beginUnlock s t th).threads[t]? = some thu) :
+    pcres thu ∧ ((t, true) ∈ (beginUnlock s t th).log ↔ (thu.pc = .applied ∨ thu.res = .admitted)) ∧
+      ((t, false) ∈ (beginUnlock s t th).log ↔ thu.res = .stale) := by
+  obtain ⟨th', h', hlog, hres, hpc'⟩ := beginUnlock_self h
+  rw [hu] at h'
+  cases h'
+  obtain ⟨_, h1, h2⟩ := hl t th h
+  rw [hlog, hres]
+  refine ⟨?_, ?_, h2⟩
+  · rcases hpc' with e | e <;> simp [pcres, e]
+  · rw [h1]
+    rcases hpc with e | e | e <;> rcases hpc' with e' | e' <;> simp [e, e']
+
+theorem loginv_step {s : Sys} (hl : LogInv s) (t : Nat) : LogInv (step s t) := by
+  intro u thu hu
+  cases h : s.threads[t]? with
+  | none =>
+    have : step s t = s := by
+      unfold step
+      simp [h]
+    rw [this] at hu ⊢
+    exact hl u thu hu
+  | some th =>
+    by_cases hut : u = t
+    · subst hut
+      obtain ⟨hp, h1, h2⟩ := hl u th h
+      unfold step at hu ⊢
+      simp only [h] at hu ⊢
+      split at hu
+      · rename_i hpc
+        simp only [pcres, hpc] at hp
+        split at hu
+        · split at hu
+          · rw [getElem?_set_self_of_some h] at hu
+            cases hu
+            simp_all [pcres]
+          · rw [show (s.setThread u _).threads[u]? = _ from getElem?_set_self_of_some h] at hu
+            cases hu
+            by_cases hs : th.succ.isEmpty = true <;> simp_all [pcres, Sys.setThread]
+        · split at hu
+          · rw [show (s.setThread u _).threads[u]? = _ from getElem?_set_self_of_some h] at hu
+            cases hu
+            simp_all [pcres, Sys.setThread]
+          · rw [getElem?_set_self_of_some h] at hu
+            cases hu
+            simp_all [pcres]
+      · rename_i hpc
+        simp only [pcres, hpc] at hp
+        rw [getElem?_set_self_of_some h] at hu
+        cases hu
+        simp_all [pcres]
+      · rename_i hpc
+        exact loginv_unlock hl h (Or.inl hpc) thu hu
+      · rename_i hpc
+        simp only [pcres, hpc] at hp
+        rw [show (s.setThread u _).threads[u]? = _ from getElem?_set_self_of_some h] at hu
+        cases hu
+        simp_all [pcres, Sys.setThread]
+      · rename_i hpc
+        exact loginv_unlock hl h (Or.inr (Or.inl hpc)) thu hu
+      · rename_i hpc
+        exact loginv_unlock hl h (Or.inr (Or.inr hpc)) thu hu
+      · exact hl u thu hu
+    · rw [step_other s t u hut] at hu
+      obtain ⟨hp, h1, h2⟩ := hl u thu hu
+      have hne : ∀ b : Bool, ((u, b) : Nat × Bool) ≠ (t, b) := fun b hh => hut (by simpa using hh)
+      obtain ⟨_, heff⟩ := step_effect h
+      rcases heff with ⟨e, _⟩ | ⟨e, _⟩ | ⟨e, _⟩ <;> rw [e] <;> simp [hp, h1, h2, hut]
+
+theorem loginv_init (store : Nat → Nat) (reqs : List (List Item)) : LogInv (init store reqs) := by
+  intro t th h
+  have hmem : th ∈ (init store reqs).threads := List.mem_of_getElem? h
+  simp only [init, List.mem_map] at hmem
+  obtain ⟨r, _, rfl⟩ := hmem
+  simp [pcres, newThread, init]
+
+theorem loginv_run {s : Sys} (hl : LogInv s) (sched : List Nat) : LogInv (run s sched) := by
+  induction sched generalizing s with
+  | nil => exact hl
+  | cons u ts ih => exact ih (loginv_step hl u)
+
+/-- **log_verdicts** — for every schedule: a request is in the serial log with verdict `true` exactly
+when it has been applied (⇔ admitted, once published), with verdict `false` exactly when its result is
+`stale`; a request whose TryLock failed is not in the log and has had no effect on the store. -/
+theorem log_verdicts (store : Nat → Nat) (reqs : List (List Item)) (sched : List Nat) (t : Nat) (th : Thread)
+    (h : (run (init store reqs) sched).threads[t]? = some th) :
+    ((t, true) ∈ (run (init store reqs) sched).log ↔ (th.pc = .applied ∨ th.res = .admitted)) ∧
+    ((t, false) ∈ (run (init store reqs) sched).log ↔ th.res = .stale) := by
+  exact (loginv_run (loginv_init store reqs) sched t th h).2
+
+/-- **lock_fail_has_conflict** (no spurious failure) — in every reachable state, when the next key of a
+thread cannot be taken (TryLock is about to return false), ANOTHER thread holds that key and one of the
+two wants it exclusively. -/
+theorem lock_fail_has_conflict (store : Nat → Nat) (reqs : List (List Item)) (hd : DistinctKeys reqs) (sched : List Nat)
+    (t : Nat) (th : Thread) (it : Item) (rest : List Item)
+    (h : (run (init store reqs) sched).threads[t]? = some th) (ht : th.todo = it :: rest)
+    (hfail : lockOne (run (init store reqs) sched).m (run (init store reqs) sched).rc it.key it.kind = none) :
+    ∃ (u : Nat) (thu : Thread) (kd : Kind), u ≠ t ∧ (run (init store reqs) sched).threads[u]? = some thu ∧
+      thu.holds it.key kd ∧ (kd = .X ∨ it.kind = .X) := by
+  have hinv := inv_reachable store reqs hd sched
+  generalize run (init store reqs) sched = s at hinv h hfail
+  have hnot := (distinct_acquire (hinv.distinct th (List.mem_of_getElem? h)) ht).1
+  have ki := hinv.key it.key
+  have hfind : ∀ kd, 1 ≤ cnt s it.key kd → ∃ (u : Nat) (thu : Thread), u ≠ t ∧ s.threads[u]? = some thu ∧ thu.holds it.key kd := by
+    intro kd hc
+    obtain ⟨u, thu, hu, hpos⟩ := sumBy_pos (hold it.key kd) s.threads (by unfold cnt at hc; omega)
+    have h1 : hold it.key kd thu = 1 := by
+      have := hold_le_one it.key kd thu
+      omega
+    refine ⟨u, thu, ?_, hu, (hold_eq_one_iff _ _ _).mp h1⟩
+    intro hut
+    subst hut
+    rw [h] at hu
+    cases hu
+    rw [not_holds_of_key_notin hnot] at h1
+    cases h1
+  unfold lockOne at hfail
+  cases hm : s.m it.key with
+  | none =>
+    cases hk : it.kind <;> simp [hm, hk] at hfail
+  | some kd' =>
+    cases kd' with
+    | X =>
+      have := ki.excl hm
+      obtain ⟨u, thu, hut, hu, hh⟩ := hfind .X (by omega)
+      exact ⟨u, thu, .X, hut, hu, hh, Or.inl rfl⟩
+    | S =>
+      cases hk : it.kind with
+      | S => simp [hm, hk] at hfail
+      | X =>
+        have := ki.shared hm
+        obtain ⟨u, thu, hut, hu, hh⟩ := hfind .S (by omega)
+        exact ⟨u, thu, .S, hut, hu, hh, Or.inr rfl⟩
+
 /-! ## the code before the repair violates the statement -/
 
 def Split.view (s : Split.Sys) : List (List Item × Bool) := s.threads.map (fun th => (th.items, th.inside))
